@@ -48,6 +48,10 @@ def gen_case(rng, boundary=False):
     lo, hi = -6, 4 * ns + 6
     a = rng.integers(lo, hi, size=(npts, numel))
     b = rng.integers(-4, 8, size=(npts, numel))
+    if far:
+        # (times at or after the window start only: every single-precision lookup time then lies in [2^10, 2^11), where tx + rx
+        #  sums are exact in single precision — the kernels add the two lookup times in their own precision)
+        a, b = np.abs(a), np.abs(b)
     lt_tx = (a * q + t0).astype(float)
     lt_rx = (b * q).astype(float)
     if boundary:
@@ -55,7 +59,10 @@ def gen_case(rng, boundary=False):
         crit = [-4, -3, -2, -1, 0, 1, 2, 6, 10, 4 * ns - 6, 4 * ns - 4, 4 * ns - 2, 4 * ns - 1, 4 * ns]
         lt_tx = (rng.choice(crit, size=(npts, numel)) * q + t0).astype(float)
         lt_rx = (rng.choice([0, 0, 1, -1, 4], size=(npts, numel)) * q).astype(float)
-    ltdtype = np.float32 if (not far and rng.random() < 0.25) else np.float64   # (far windows: double-precision times only, see DESIGN 9.18)
+        if far:
+            lt_tx = (np.abs(rng.choice(crit, size=(npts, numel))) * q + t0).astype(float)
+            lt_rx = (rng.choice([0, 0, 1, 4], size=(npts, numel)) * q).astype(float)
+    ltdtype = np.float32 if rng.random() < (0.6 if far else 0.25) else np.float64
     lt_tx, lt_rx = lt_tx.astype(ltdtype), lt_rx.astype(ltdtype)
     amp = rng.random() < 0.45
     amp_tx = rng.integers(-3, 4, size=(npts, numel)).astype(float)
